@@ -1,0 +1,10 @@
+//! Verification hooks, compiled only with `--cfg ldap3_verif`.
+//!
+//! Nothing in this module is part of the public API of the crate.
+
+use tokio::io::{AsyncRead, AsyncWrite};
+
+/// In-memory transport accepted by `LdapConnAsync::verif_from_io()`.
+pub trait VerifIo: AsyncRead + AsyncWrite + Send + std::fmt::Debug {}
+
+impl<T: AsyncRead + AsyncWrite + Send + std::fmt::Debug> VerifIo for T {}
